@@ -40,7 +40,9 @@ theorem dealloc_indirect_empty_when_nothing_owned (handles : Bool) (t : Ty) (lvl
 /-- **Cleanup through memory frees exactly the reachable buffers.**  For every type without
 fixed-length lists (any nesting of lists, maps, strings, records, tuples, variants, options,
 results), both pointer widths, any memory `m` whose discriminants are in range at the value's
-location (what a successful `load` guarantees), any nesting level, address expression and offset:
+location (`validDiscs`: an explicit hypothesis — that a memory written by `Spec.store` of a well-typed
+value, or accepted by `Spec.load`, satisfies it is NOT proved here; the monitor checks it on every
+sampled case), any nesting level, address expression and offset:
 executing the cleanup tree leaves memory untouched and extends the ledger of freed blocks by exactly
 `cleanupBlocks p m t addr` — the blocks the memory layout says are reachable from the value (each
 list/string/map buffer once, with size `len * elem_size` and the element's alignment, inner buffers
